@@ -39,6 +39,7 @@ fn generate(corpus: &Corpus, tier: Tier, run: u64, rng: &mut Rng) -> Option<Case
     let mut prof = GenProfile::general();
     prof.generated_pct = 70;
     prof.gcfg.list_ties = true;
+    prof.gcfg.const_chains = true;
     prof.gcfg.random = true;
     prof.gcfg.shuffles = true;
     prof.gcfg.externals = true;
@@ -49,6 +50,7 @@ fn generate(corpus: &Corpus, tier: Tier, run: u64, rng: &mut Rng) -> Option<Case
         g.swarm(rng);
         g.lists = true;
         g.list_ties = true;
+        g.const_chains = true;
         g.random = true;
         g.shuffles = rng.chance(2, 3);
         prog = crate::inkgen::generate(rng, &g)?;
@@ -155,6 +157,7 @@ fn warm_trace(case: &Case) -> Vec<String> {
     let mut g = crate::inkgen::GenCfg::general();
     g.lists = true;
     g.list_ties = true;
+    g.const_chains = true;
     g.random = true;
     g.shuffles = true;
     g.sequences = true;
